@@ -202,7 +202,19 @@ def inverse_maps(ctx, prog, rule_maps, rule_cov, rule_fmt, only=None):
                 if (label, fld) in WRITE_ONLY_OK:
                     ctx.ob(rule_maps, "written-not-read/%s.%s" % (label, fld), True, "%s.%s is written as %s and deliberately not read back: %s" % (label, fld, wtags, WRITE_ONLY_OK[(label, fld)]), nontrivial=False)
                     continue
-                ctx.ob(rule_maps, "field-map/%s.%s" % (label, fld), False, "%s.%s is written as %s but no lookup in %s reads it into that field" % (label, fld, wtags, [short(x) for x in rfns]))
+                # a lookup helper that takes the tag as its parameter (`let child = |tag| node.children().find(..)`) hides
+                # which tag feeds which field from this extraction: undecided, not a violation
+                param_tags = False
+                for rf_ in rfns:
+                    fn_ = prog.fns.get(rf_)
+                    for cl_ in (prog.closures_of(fn_) if fn_ is not None else []):
+                        Rc_ = Resolver(cl_)
+                        for b_, t_ in cl_.calls(lambda c, t: c.endswith("has_tag_name")):
+                            a_ = strip(Rc_.operand(t_["args"][1]))
+                            if a_[0] != "const":
+                                param_tags = True
+                ctx.ob(rule_maps, "field-map/%s.%s" % (label, fld), None if param_tags else False, "%s.%s is written as %s but no lookup in %s reads it into that field%s" % (
+                    label, fld, wtags, [short(x) for x in rfns], " (the reader looks tags up through a helper with a tag parameter)" if param_tags else ""))
                 continue
             rtags = sorted({(t, ty) for t, ty, h in rr if t})
             if (label, fld) in MAP_EXCEPTIONS:
